@@ -1,26 +1,26 @@
 CONSTANTS
   Key = {"k1", "k2"}
   Relevant = {429}
-  Steps = {1, 2}
+  Steps = {1}
   PerSec = 2
   Writers = {"w1", "w2"}
   Typ = "mem"
   Ttl = 0
   MaxSize = 3
   Sts = {200}
-  Hdrs = {1, 3}
-  Szs = {1, 2}
+  Hdrs = {1}
+  Szs = {1}
   NVal = 2
-  MaxNow = 5
+  MaxNow = 1
   KF_UnlockedSizeCheck = FALSE
   TruncNow = FALSE
   NoExpiryTest = FALSE
   RefusalLeak = FALSE
-  StalePeek = FALSE
+  StalePeek = TRUE
   Sync = FALSE
   KeepHist = TRUE
-  OneGate = FALSE
+  OneGate = TRUE
 SPECIFICATION ISpec
 VIEW View
-INVARIANTS CxPOk CxHeldBound Accounting Exact
+INVARIANTS CxAccounting
 CHECK_DEADLOCK FALSE
